@@ -1,4 +1,4 @@
-(* C09_Corr.v — correspondence vocabulary for C09.  Two kinds of cases:
+(* C09_Corr.v — correspondence vocabulary for C09.  Three kinds of cases:
 
      CList  the config version, a list of binding contexts handed to
             ConvertBindingContextList and what ConvertBindingContextList(version,
@@ -7,21 +7,29 @@
             objects that exist when the monitor is created, the watch events afterwards,
             and the files the real KubeEventsManager + HookController + rendering produced
             (None = crash), each with the step after which it appeared and the ResourceIds
-            behind its `objects` and `snapshots` elements.
+            behind its `objects` and `snapshots` elements;
+     CHook  a hook with several kubernetes bindings and schedule / validating / mutating /
+            conversion bindings (names shared across the binding types), the events whose
+            contexts were appended to ONE array, and what the real controllers +
+            HookController.UpdateSnapshots + rendering produced for that array (None = crash):
+            per item the event it stands for and the ResourceIds behind its `objects` and
+            `snapshots` elements, and the file.
 
    Evaluated by vm_compute in the generated cases files. *)
 From Verif Require Import Common Json C09_Model C09_Spec.
 
 Inductive case :=
 | CList (v : version) (cs : list ctx) (out : option json)
-| CFlow (f : flow) (obs : option (list fobs)).
+| CFlow (f : flow) (obs : option (list fobs))
+| CHook (hc : hcase) (obs : option hobs).
 
-Inductive mobs := MList (out : option json) | MFlow (files : list fobs).
+Inductive mobs := MList (out : option json) | MFlow (files : list fobs) | MHook (o : hobs).
 
 Definition model_obs (c : case) : mobs :=
   match c with
   | CList v cs _ => MList (render_list v cs)
   | CFlow f _ => MFlow (run_flow f)
+  | CHook hc _ => MHook (run_hook hc)
   end.
 
 Definition ids_eqb : list bytes -> list bytes -> bool := list_eqb bytes_eqb.
@@ -32,23 +40,36 @@ Definition fobs_eqb (a b : fobs) : bool :=
   && list_eqb (pair_eqb bytes_eqb ids_eqb) (fo_snaps a) (fo_snaps b)
   && option_eqb json_eqb (fo_out a) (fo_out b).
 
+Definition hitem_eqb (a b : hitem) : bool :=
+  N.eqb (hi_ev a) (hi_ev b)
+  && ids_eqb (hi_ids a) (hi_ids b)
+  && list_eqb (pair_eqb bytes_eqb ids_eqb) (hi_snaps a) (hi_snaps b).
+
+Definition hobs_eqb (a b : hobs) : bool :=
+  list_eqb hitem_eqb (ho_items a) (ho_items b)
+  && option_eqb json_eqb (ho_out a) (ho_out b).
+
 Definition agrees (c : case) : bool :=
   match c with
   | CList v cs out => option_eqb json_eqb (render_list v cs) out
   | CFlow f (Some files) => list_eqb fobs_eqb (run_flow f) files
   | CFlow f None => false
+  | CHook hc (Some o) => hobs_eqb (run_hook hc) o
+  | CHook hc None => false
   end.
 
 Definition holds (c : case) : bool :=
   match c with
   | CList v cs out => P v cs out
   | CFlow f obs => P_flow f obs
+  | CHook hc obs => P_hook hc obs
   end.
 
 Definition triggered (c : case) : bool :=
   match c with
   | CList v cs _ => T v cs
   | CFlow f _ => T_flow f
+  | CHook hc _ => T_hook hc
   end.
 
 Definition mismatches (cs : list case) : list N := indices_where (fun c => negb (agrees c)) cs.
